@@ -83,6 +83,7 @@ func runC18(c *eng.Ctx) {
 	cr := &caseRunner{c: c, prop: "C18"}
 	defer func() {
 		RunWarmup(c, cr.next)
+		RunBuildDoorsRootContext(c, cr.next)
 		RunTwoBuilds(c, "C18", cr.next)
 		if C18Concurrent != nil {
 			C18Concurrent(c, cr.next)
